@@ -54,7 +54,29 @@ func VerifH_C19_error_classes() {
 		return "var cls = 'none'; try { " + body + " } catch (e) { cls = e instanceof TypeError ? 'TypeError' : e instanceof RangeError ? 'RangeError' : e instanceof ReferenceError ? 'ReferenceError' : e instanceof SyntaxError ? 'SyntaxError' : e instanceof URIError ? 'URIError' : 'other'; nm = e.name; msg = typeof e.message == 'string' ? e.message : ''; proto = Object.getPrototypeOf(e) === this[cls].prototype } cls"
 	}
 	var script, want string
-	switch verifChoose(10) {
+	switch verifChoose(11) {
+	case 10: // RegExp flags: SyntaxError iff a character other than g, i, m occurs, or one occurs twice
+		n := verifChoose(3)
+		f := verifNondetString(n)
+		bad := false
+		for i := 0; i < n; i++ {
+			verifAssume(f[i] < 0x80)
+			if f[i] != 'g' && f[i] != 'i' && f[i] != 'm' {
+				bad = true
+			}
+			for j := 0; j < i; j++ {
+				if f[j] == f[i] {
+					bad = true
+				}
+			}
+		}
+		vm.Set("x", f)
+		script = "new RegExp('a', x)"
+		if bad {
+			want = "SyntaxError"
+		} else {
+			want = "none"
+		}
 	case 0: // calling or constructing a non-function: any primitive, every call form
 		verifSetKind(vm, "x", verifChoose(5), 2)
 		vm.Run("var o = {m: x}")
